@@ -102,6 +102,14 @@ func (u *Unit) atLoopHeader(st *State, fr *Frame, lp *loop, b, pred *ssa.BasicBl
 	if spec != nil && (spec.Mode == "unroll" || spec.Mode == "bounded") {
 		n, mode = spec.N, spec.Mode
 	}
+	auto := false
+	if spec == nil && u.Cfg.AutoConcrete > 0 {
+		// no annotation: a loop whose trip count is a small constant on this
+		// path (ranging over a short list built earlier on the path) is
+		// unrolled completely; otherwise it is havocked
+		spec = &LoopSpec{Mode: "concrete", N: u.Cfg.AutoConcrete}
+		auto = true
+	}
 	if spec != nil && spec.Mode == "concrete" {
 		// unroll completely when the trip count is a constant on this path
 		// (e.g. ranging over a list built earlier on the path), else havoc
@@ -111,10 +119,10 @@ func (u *Unit) atLoopHeader(st *State, fr *Frame, lp *loop, b, pred *ssa.BasicBl
 			if ifi, ok := b.Instrs[len(b.Instrs)-1].(*ssa.If); ok {
 				if cmp, ok := ifi.Cond.(*ssa.BinOp); ok {
 					if yv, ok := fr.regs[cmp.Y]; ok {
-						if t, ok := yv.(*Term); ok && t.IsInt {
+						if t, ok := yv.(*Term); ok && t.IsInt && (!auto || (t.I.IsInt64() && t.I.Int64() <= int64(spec.N))) {
 							st.visits[key2] = 1
 						}
-					} else if c, ok := cmp.Y.(*ssa.Const); ok && c.Value != nil {
+					} else if c, ok := cmp.Y.(*ssa.Const); ok && c.Value != nil && !auto {
 						st.visits[key2] = 1
 					}
 				}
@@ -127,7 +135,7 @@ func (u *Unit) atLoopHeader(st *State, fr *Frame, lp *loop, b, pred *ssa.BasicBl
 	if u.Cfg.ForceBounded > 0 {
 		mode, n = "bounded", u.Cfg.ForceBounded
 	}
-	if u.Cfg.QuickLoopCap > 0 && mode == "unroll" && n > u.Cfg.QuickLoopCap {
+	if u.Cfg.QuickLoopCap > 0 && mode == "unroll" && n > u.Cfg.QuickLoopCap && !auto {
 		// quick tier: count-bounded loops (<= 16 leases / keys / entries) are
 		// explored up to the cap only and reported as bounded; the thorough tier
 		// unrolls them completely with the unwinding obligation
